@@ -528,6 +528,17 @@ class TBRMatchedMarkets:
       the set of feasible designs found given the design parameters,
         with their corresponding treatment/control groups and score.
     """
+    # The search fills in unspecified group size ranges; do that on a private
+    # copy so that the caller's parameter object is left unmodified.
+    user_parameters = self.parameters
+    self.parameters = copy.copy(user_parameters)
+    try:
+      return self._greedy_search()
+    finally:
+      self.parameters = user_parameters
+
+  def _greedy_search(self):
+    """Implements greedy_search() (fills in self.parameters size ranges)."""
     budget_range = self.parameters.budget_range
     results = heapdict.HeapDict(size=self.parameters.n_designs)
 
